@@ -247,5 +247,200 @@ ASSUMPTIONS = [
     "callback contract: calling a generator at time `now` returns G(gen, now) — that the numbergen generators really are functions of (name, seed, time) (hash-seeded random state, A-RANDOM) is covered by the bounded layer only",
     "times are numbers (is_time = numeric type); G depends on the numeric value of the time",
     "Time's `timestep`/`until` Parameters are modelled as plain fields of the Time object",
-    "_state_push/_state_pop are covered by the bounded layer only",
+    "_state_push ; reads ; _state_pop: distinct parameters hold distinct generator objects; reads in between and nested objects leave the save stacks of this object's generators alone (rely); save stacks are modelled as values with push/top/rest",
 ]
+
+
+# ---------------------------------------------------------------------------------------------
+# Parameters._state_push ; <arbitrary reads> ; Parameters._state_pop   (param/parameterized.py)
+# ---------------------------------------------------------------------------------------------
+PUSHPOP_REPLAY = '''import sys, os
+sys.path.insert(0, os.environ.get('PYVC_REPO', '/repo'))
+import param, numbergen as ng
+bad = []
+for nparams in (1, 2):
+    param.Dynamic.time_dependent = True
+    t = param.Dynamic.time_fn
+    class P(param.Parameterized):
+        a = param.Dynamic(default=ng.UniformRandom(name='ra', seed=1, time_dependent=True))
+        b = param.Dynamic(default=ng.UniformRandom(name='rb', seed=2, time_dependent=True))
+    p = P()
+    names = ['a', 'b'][:nparams]
+    t(1)
+    before = {n: getattr(p, n) for n in names}
+    gens = {n: p.param.get_value_generator(n) for n in names}
+    snap = lambda g: (g._Dynamic_last, g._Dynamic_time, list(getattr(g, '_saved_Dynamic_last', ())), list(getattr(g, '_saved_Dynamic_time', ())))
+    cache0 = {n: snap(gens[n]) for n in names}
+    p.param._state_push()
+    t(5)
+    for n in names:
+        getattr(p, n)                      # reads in between move the caches
+    p.param._state_pop()
+    cache1 = {n: snap(gens[n]) for n in names}
+    for n in names:
+        if cache1[n] != cache0[n]:
+            bad.append('%d parameter(s): generator cache of %s (last, time, saved_last, saved_time) %r -> %r' % (nparams, n, cache0[n], cache1[n]))
+    t(1)
+    after = {n: getattr(p, n) for n in names}
+    if after != before:
+        bad.append('%d parameter(s): values at time 1 before push %r, after pop %r' % (nparams, before, after))
+    param.Dynamic.time_dependent = False
+    t(0)
+if bad:
+    print('REPRODUCED: C19 state push/pop does not restore the cached values:')
+    for b in bad:
+        print('  ', b)
+    sys.exit(1)
+print('NOT-REPRODUCED'); sys.exit(0)
+'''
+
+
+def push_pop_contract():
+    """`_state_push()`, arbitrary reads in between, `_state_pop()` on an object with an ARBITRARY
+    table of parameters (loop invariants, Skolem parameter name): the cache (`_Dynamic_last`,
+    `_Dynamic_time`) of every dynamic value generator is what it was at the push, and the save
+    stacks are what they were before the push."""
+    from pyvc.loops import LoopSpec
+    from pyvc.objects import sym_field
+    from pyvc import builtins_lib as bl
+    holder = {}
+    genF = z3.Function("value_generator_of", vm.V, vm.V)
+    snoc = z3.Function("stack_push", vm.V, vm.V, vm.V)
+    top = z3.Function("stack_top", vm.V, vm.V)
+    rest = z3.Function("stack_rest", vm.V, vm.V)
+    FIELDS = ("_Dynamic_last", "_Dynamic_time", "_saved_Dynamic_last", "_saved_Dynamic_time")
+
+    def configure(I):
+        I.sym_fields = set(FIELDS)
+
+        def vmethod(I, st, name, selfv, args, kwargs, ctx):
+            t = I.term(selfv)
+            if name in ("append", "pop") and z3.is_app(t) and t.decl().kind() == z3.Z3_OP_SELECT:
+                # a save stack held in a field of a generator: functional update of the field map
+                fmap, g = t.arg(0), t.arg(1)
+                key = [k for k in st.ghost if isinstance(k, str) and k.startswith("F_") and st.ghost[k].eq(fmap)]
+                if len(key) != 1:
+                    raise OutOfReach("append/pop on a value that is not a field of a generator")
+                if name == "append":
+                    new = snoc(t, I.term(args[0]))
+                    I.U.axioms += [top(new) == I.term(args[0]), rest(new) == t]
+                    st.ghost[key[0]] = z3.Store(fmap, g, new)
+                    return [(st, Conc(None))]
+                r = top(t)
+                I.U.well_typed(r)
+                st.ghost[key[0]] = z3.Store(fmap, g, rest(t))
+                return [(st, Sym(r))]
+            if name in ("_state_push", "_state_pop"):
+                st.ghost["nested"] = st.ghost.get("nested", []) + [(name, t)]
+                return [(st, Conc(None))]
+            return None
+        I.lib["$value_method"] = vmethod
+
+        def objects(I, st, fv, args, kwargs, ctx):
+            return [(st, holder["P"])]
+        I.contracts["Parameters.objects"] = objects
+
+        def gvg(I, st, fv, args, kwargs, ctx):
+            r = genF(I.term(args[0]))
+            I.U.well_typed(r)
+            return [(st, Sym(r))]
+        I.contracts["Parameters.get_value_generator"] = gvg
+
+    def dyn(g):
+        return bl.hasattr_fn("_Dynamic_last")(g)
+
+    def setup(I, st):
+        U = I.U
+        obj = I.alloc_obj(st, "Parameterized", lazy=True, label="obj")
+        par = I.alloc_obj(st, "Parameters", lazy=False, label="obj.param")
+        st.heap[par.oid].fields.update({"self": obj, "cls": ClsV("Parameterized"), "self_or_cls": obj})
+        st.heap[obj.oid].fields["param"] = par
+        P = I.alloc_dict(st, keys=U.fresh_seq("parameter_names"), vals=z3.Const("parameters", z3.ArraySort(vm.V, vm.V)))
+        k = U.fresh("some_name")
+        holder.update({"P": P, "k": k, "par": par})
+        F0 = {f: sym_field(I, st, f) for f in FIELDS}
+        holder["F0"] = F0
+        # stack axioms at the Skolem generator's own pushes
+        g = genF(k)
+        for sv, cur in (("_saved_Dynamic_last", "_Dynamic_last"), ("_saved_Dynamic_time", "_Dynamic_time")):
+            l0, x0 = z3.Select(F0[sv], g), z3.Select(F0[cur], g)
+            U.axioms += [top(snoc(l0, x0)) == x0, rest(snoc(l0, x0)) == l0]
+        return {"obj": obj, "par": par, "symbols": {}}
+
+    def other_facts(I, st, x):
+        # distinct parameters hold distinct generator objects (assumption, listed)
+        k = holder["k"]
+        return [z3.Implies(x != k, genF(x) != genF(k))]
+
+    def runner(I, st, info, ctx):
+        U = I.U
+        push = I.bound_method(info["par"], I.src.find_method("Parameters", "_state_push"))
+        pop = I.bound_method(info["par"], I.src.find_method("Parameters", "_state_pop"))
+        out = []
+        holder["phase"] = "push"
+        for (q, oc) in I.call(push, [], {}, st, ctx):
+            if isinstance(oc, Raise):
+                out.append((q, oc))
+                continue
+            # arbitrary reads in between: the caches move, the save stacks are left alone (rely)
+            q.ghost["mid"] = {f: sym_field(I, q, f) for f in FIELDS}
+            for f in ("_Dynamic_last", "_Dynamic_time"):
+                q.ghost["F_" + f] = z3.Const("F_%s!between%d" % (f, I.new_oid()), z3.ArraySort(vm.V, vm.V))
+            holder["phase"] = "pop"
+            holder["mid"] = q.ghost["mid"]
+            out += I.call(pop, [], {}, q, ctx)
+        return out
+
+    def inv(I, st, pre):
+        k = holder["k"]
+        g = genF(k)
+        seen = z3.Contains(pre.seq, z3.Unit(k))
+        F0 = holder["F0"]
+        F = {f: sym_field(I, st, f) for f in FIELDS}
+        sel = lambda m, f: z3.Select(m[f], g)
+        if holder["phase"] == "push":
+            return z3.Implies(dyn(g), z3.And(
+                sel(F, "_Dynamic_last") == sel(F0, "_Dynamic_last"), sel(F, "_Dynamic_time") == sel(F0, "_Dynamic_time"),
+                sel(F, "_saved_Dynamic_last") == z3.If(seen, snoc(sel(F0, "_saved_Dynamic_last"), sel(F0, "_Dynamic_last")), sel(F0, "_saved_Dynamic_last")),
+                sel(F, "_saved_Dynamic_time") == z3.If(seen, snoc(sel(F0, "_saved_Dynamic_time"), sel(F0, "_Dynamic_time")), sel(F0, "_saved_Dynamic_time"))))
+        M = holder["mid"]
+        return z3.Implies(dyn(g), z3.And(
+            z3.Implies(seen, z3.And(sel(F, "_Dynamic_last") == top(sel(M, "_saved_Dynamic_last")), sel(F, "_Dynamic_time") == top(sel(M, "_saved_Dynamic_time")),
+                                    sel(F, "_saved_Dynamic_last") == rest(sel(M, "_saved_Dynamic_last")), sel(F, "_saved_Dynamic_time") == rest(sel(M, "_saved_Dynamic_time")))),
+            z3.Implies(z3.Not(seen), z3.And(sel(F, "_saved_Dynamic_last") == sel(M, "_saved_Dynamic_last"), sel(F, "_saved_Dynamic_time") == sel(M, "_saved_Dynamic_time")))))
+
+    def havoc(I, st):
+        for f in FIELDS:
+            st.ghost["F_" + f] = z3.Const("F_%s!%d" % (f, I.new_oid()), z3.ArraySort(vm.V, vm.V))
+
+    def post(I, info, st, oc):
+        if isinstance(oc, Raise):
+            return [("does-not-raise", z3.BoolVal(False))]
+        k = holder["k"]
+        g = genF(k)
+        F0 = holder["F0"]
+        F = {f: sym_field(I, st, f) for f in FIELDS}
+        hp = st.heap[holder["P"].oid]
+        cond = z3.And(z3.Contains(hp.keys, z3.Unit(k)), dyn(g))
+        return [("pop restores the cached value of every dynamic generator to what it was at the push",
+                 z3.Implies(cond, z3.Select(F["_Dynamic_last"], g) == z3.Select(F0["_Dynamic_last"], g))),
+                ("pop restores the cache time of every dynamic generator to what it was at the push",
+                 z3.Implies(cond, z3.Select(F["_Dynamic_time"], g) == z3.Select(F0["_Dynamic_time"], g))),
+                ("the save stacks are what they were before the push (balanced)",
+                 z3.Implies(cond, z3.And(z3.Select(F["_saved_Dynamic_last"], g) == z3.Select(F0["_saved_Dynamic_last"], g),
+                                         z3.Select(F["_saved_Dynamic_time"], g) == z3.Select(F0["_saved_Dynamic_time"], g))))]
+    loops = {("Parameters._state_push", "objects('existing')"): LoopSpec("objects('existing')", inv=inv, heap=havoc, name="save-every-generator", elem_facts=other_facts),
+             ("Parameters._state_pop", "objects('existing')"): LoopSpec("objects('existing')", inv=inv, heap=havoc, name="restore-every-generator", elem_facts=other_facts)}
+    c = FunctionContract("param.parameterized:Parameters._state_pop", PROP, setup, post, configure=configure, loops=loops,
+                         name="Parameters._state_push ; reads ; _state_pop [arbitrary parameter table]")
+    c.runner = runner
+    c.static_replay = PUSHPOP_REPLAY
+    c.static_witness = "time-dependent random generators on 1 and 2 parameters: push at t=1, reads at t=5, pop"
+    return c
+
+
+_c19_base = contracts
+
+
+def contracts():
+    return _c19_base() + [push_pop_contract()]
